@@ -17,7 +17,8 @@ for f in sorted(glob.glob(os.path.join(HERE, "seeded", "*", "meta.json"))):
     ran = ", ".join(f"{c}:{r['exit']}" for c, r in m.get("checks", {}).items())
     first = m.get("earlier_evaluations")
     first = ("; ".join(", ".join(e["detected_by"]) or "none" for e in first)) if first else "="
-    rows.append(f"| {m['id']} | {m['property']} | {what} | {'yes' if m.get('confirmed') else 'NO'} | "
+    conf = "yes" if m.get("confirmed") else ("superseded by a fix (see meta.json)" if m.get("status_note") else "NO")
+    rows.append(f"| {m['id']} | {m['property']} | {what} | {conf} | "
                 f"{', '.join(m.get('detected_by', [])) or '**none**'} | {first} | {ran} |")
 table = "\n".join(["| id | property | change (first lines of the author's notes) | confirmed | detected by (now) | earlier evaluations (= : unchanged) | checks run (exit) |",
                    "|---|---|---|---|---|---|---|"] + rows)
